@@ -230,11 +230,36 @@ pub async fn step_api(w: &mut World, op: Tok, c: &mut Cur<'_>, start: SystemTime
     match op {
         20 => {
             let (Some(view), Some(path)) = (c.next(), c.string()) else { return bad };
+            // optional: explicitly requested fields (1 Value, 2 ActuatorTarget, 4 Metadata)
+            let mask = c.next().unwrap_or(0);
+            let mut fields = Vec::new();
+            if mask & 1 != 0 {
+                fields.push(p1::Field::Value as i32);
+            }
+            if mask & 2 != 0 {
+                fields.push(p1::Field::ActuatorTarget as i32);
+            }
+            if mask & 4 != 0 {
+                fields.push(p1::Field::Metadata as i32);
+            }
+            if mask & 8 != 0 {
+                fields.push(p1::Field::MetadataDataType as i32);
+            }
+            if mask & 16 != 0 {
+                fields.push(p1::Field::MetadataEntryType as i32);
+            }
+            if mask & 32 != 0 {
+                fields.push(p1::Field::MetadataValueRestriction as i32);
+            }
+            if mask & 64 != 0 {
+                fields.push(p1::Field::MetadataUnit as i32);
+                fields.push(p1::Field::MetadataDescription as i32);
+            }
             let r = p1::val_server::Val::get(
                 &b,
                 req(
                     p1::GetRequest {
-                        entries: vec![p1::EntryRequest { path, view: view as i32, fields: vec![] }],
+                        entries: vec![p1::EntryRequest { path, view: view as i32, fields }],
                     },
                     Some(&perms),
                 ),
@@ -591,22 +616,27 @@ pub async fn step_api(w: &mut World, op: Tok, c: &mut Cur<'_>, start: SystemTime
         // ---- subscriptions through the handlers: the proto stream is read back into the core's message
         //      type, so that RECV / DROP and the canonical message lines of the history family apply
         33 => {
-            let (Some(mask), Some(path)) = (c.next(), c.string()) else { return bad };
-            let mut fields = Vec::new();
-            if mask & 1 != 0 {
-                fields.push(p1::Field::Value as i32);
+            let Some(n) = c.next() else { return bad };
+            let mut entries = Vec::new();
+            for _ in 0..n {
+                let (Some(mask), Some(path)) = (c.next(), c.string()) else { return bad };
+                let mut fields = Vec::new();
+                if mask & 1 != 0 {
+                    fields.push(p1::Field::Value as i32);
+                }
+                if mask & 2 != 0 {
+                    fields.push(p1::Field::ActuatorTarget as i32);
+                }
+                if mask & 4 != 0 {
+                    fields.push(p1::Field::MetadataUnit as i32);
+                }
+                // fields the handler ignores
+                fields.push(p1::Field::MetadataDescription as i32);
+                fields.push(99);
+                entries.push(p1::SubscribeEntry { path, view: 0, fields });
             }
-            if mask & 2 != 0 {
-                fields.push(p1::Field::ActuatorTarget as i32);
-            }
-            if mask & 4 != 0 {
-                fields.push(p1::Field::MetadataUnit as i32);
-            }
-            // fields the handler ignores
-            fields.push(p1::Field::MetadataDescription as i32);
-            fields.push(99);
             let ids = path_ids(w).await;
-            let request = p1::SubscribeRequest { entries: vec![p1::SubscribeEntry { path, view: 0, fields }] };
+            let request = p1::SubscribeRequest { entries };
             match p1::val_server::Val::subscribe(&b, req(request, Some(&perms))).await {
                 Err(s) => vec![vec![1, code_num(s.code())]],
                 Ok(r) => {
